@@ -108,7 +108,7 @@ PROPERTIES = {
         clause="options are written only by the CLI setter and read at call time; settings<->options<->setter census; every root source is complete and approximations clear "
                "the flag; cond2arithm keeps every assignment; categorical expansion keeps index/value/probability aligned. NOT decided: equality of closed forms across settings."),
     "C19": dict(
-        specs=[S("SPLICE", r"inputparser/"), S("GRAMMAR"), S("PARSER"), S("FLOAT", r"float_to_rational|PolyAssignment")],
+        specs=[S("SPLICE", r"inputparser/"), S("GRAMMAR"), S("PARSER"), S("FLOAT")],
         clause="parser templates are precedence-safe; arithmetic is re-stringified token by token; probability vectors and assigned names are validated; floats become "
                "exact rationals; simultaneous assignment puts all temporaries first. NOT decided: equality of the analyses of two spellings."),
     "C20": dict(
